@@ -5,7 +5,9 @@ import (
 	_ "verif/internal/c01"
 	_ "verif/internal/c02"
 	_ "verif/internal/c03"
+	_ "verif/internal/c04"
 	_ "verif/internal/c05"
+	_ "verif/internal/c06"
 	_ "verif/internal/c07"
 	_ "verif/internal/c08"
 	_ "verif/internal/c09"
